@@ -326,6 +326,9 @@ func runRewrite(run *vk.Run, idx uint64) {
 }
 
 func main() {
+	if _, ok := vk.InChild(); ok {
+		e2eChild()
+	}
 	run := vk.Start("C02")
 	if rep, ok := vk.ReplayInput(); ok {
 		m, _ := rep["replay"].(map[string]any)
@@ -360,6 +363,7 @@ func main() {
 	}
 	wg.Wait()
 	_ = rand.IntN
+	e2eTier(run)
 	run.FloorCounter("pairs_compared", 10000)
 	run.FloorCounter("frames_wholly_withheld", 500)
 	run.FloorCounter("vp8_frames_checked_after_a_withheld_frame", 1000)
@@ -368,5 +372,5 @@ func main() {
 	run.FloorCounter("rewrite_calls_compared", 10000)
 	run.Assume("in-order arrival (the property's scope for picture ids); session-level fields SSRC and payload type are compared against the binding's values")
 	run.Assume("verif export shim of rtpconn + capturing write stream bound to the real TrackLocalStaticRTP; pion depacketisers as independent parsers")
-	run.Finish("exploration", "id-tagged VP8 (all X/I/L/T/K shapes, 7/15-bit ids incl. wrap, 0-3 CSRCs), VP9 (flexible/non-flexible, 1-3 spatial layers) and opaque-codec streams, 1-5 packets per frame, through the real rtpDownTrack.Write with REMB-driven layer switches; input/output pairs diffed field by field; picture ids checked against source id minus wholly withheld frames; plus direct RewritePacket calls with all deltas; distinct_nontrivial = distinct descriptor/layer shapes among histories where a whole frame was withheld and later frames forwarded, or a marker was set")
+	run.Finish("exploration", "id-tagged VP8 (all X/I/L/T/K shapes, 7/15-bit ids incl. wrap, 0-3 CSRCs), VP9 (flexible/non-flexible, 1-3 spatial layers) and opaque-codec streams, 1-5 packets per frame, through the real rtpDownTrack.Write with REMB-driven layer switches; input/output pairs diffed field by field; picture ids checked against source id minus wholly withheld frames; plus direct RewritePacket calls with all deltas; plus an end-to-end tier (real server, SRTP, pion subscribers incl. a late joiner, REMB-driven temporal layer drops, 15-bit picture id wrap) judged against the server's own record of withheld frames; distinct_nontrivial = distinct descriptor/layer shapes among histories where a whole frame was withheld and later frames forwarded, or a marker was set")
 }
